@@ -1,7 +1,7 @@
 //! Shared plumbing of the executors: tag <-> serial binding, measured calls,
 //! JSON renderings of observed objects, Debug-output parsing.
 
-use crate::elem::{Class, Key, Val};
+use crate::elem::{Class, Cls, Key, Val};
 use crate::ledger;
 use serde_json::{json, Value};
 use std::collections::HashMap;
@@ -129,7 +129,7 @@ impl Ctx {
         }
     }
     pub fn mk_key(&mut self, o: &Value) -> Key {
-        let k = Key::new(o["c"].as_u64().unwrap() as u8, o["r"].as_u64().unwrap() as u8);
+        let k = Key::new(o["c"].as_u64().unwrap() as Cls, o["r"].as_u64().unwrap() as u8);
         self.tags.bind_k(o["kt"].as_i64().unwrap(), k.serial);
         k
     }
@@ -138,7 +138,7 @@ impl Ctx {
         self.tags.bind_v(o["vt"].as_i64().unwrap(), v.serial);
         v
     }
-    pub fn probe_key(&mut self, class: u8) -> *const Key {
+    pub fn probe_key(&mut self, class: Cls) -> *const Key {
         let k = Key::new(class, 7);
         self.extras.push(Owned::K(k));
         match self.extras.last().unwrap() {
@@ -179,14 +179,14 @@ pub fn call<R>(ctx: &mut Ctx, f: impl FnOnce() -> R) -> Option<R> {
     }
 }
 
-pub fn class_probe(c: u8) -> Class {
+pub fn class_probe(c: Cls) -> Class {
     Class::probe(c)
 }
 
 /// Objects listed by a Debug rendering: `K<c>.<r>#<serial>` and `V<c>#<serial>`.
 #[derive(Debug, Clone, PartialEq)]
 pub enum Tok {
-    K(u8, u8, u32),
+    K(Cls, u8, u32),
     V(u8, u32),
 }
 
@@ -215,7 +215,7 @@ pub fn parse_debug(s: &str) -> Vec<Tok> {
                         if i < b.len() && b[i] == b'#' {
                             i += 1;
                             if let Some(sr) = num(&mut i) {
-                                out.push(Tok::K(c as u8, r as u8, sr as u32));
+                                out.push(Tok::K(c as Cls, r as u8, sr as u32));
                             }
                         }
                     }
